@@ -8,6 +8,13 @@ ARRAY_KINDS = ["c", "fortran", "strided", "view", "column"]  # numpy arrays a ca
 def relayout(a, rng, kind=None):
     """Return (object holding the values of a, kind). Values are bit-identical to np.array(a, float)."""
     a = np.array(a, dtype="double")
+    if kind is None and a.size and np.array_equal(a, np.rint(a)) and np.abs(a).max() < 2 ** 31 and rng.integers(2):
+        # whole numbers as a caller writes them (q = [0, 0, 0], [1, 0, 0], a mesh, a direction [1, 1, 0]): integer-typed containers - a buffer
+        # handed to a compiled routine without conversion is then read as garbage (round 6, integer frequency windows)
+        k = ["int_list", "int64_array", "intc_array"][int(rng.integers(3))]
+        if k == "int_list":
+            return np.rint(a).astype(int).tolist(), k
+        return np.rint(a).astype("int64" if k == "int64_array" else "intc"), k
     kind = kind or KINDS[int(rng.integers(len(KINDS)))]
     if kind == "c":
         return np.array(a, order="C"), kind
